@@ -292,17 +292,27 @@ def blueprint_text(spec):
     lines.append(f"    heights: &hts [{', '.join(str(float(h)) for h in heights)}]")
     lines.append(f"    axial mesh points: &amp [{', '.join('1' for _ in range(nb))}]")
     for name, spec_id, enr in (("igniter fuel", "IC", 0.11), ("outer fuel", "OC", 0.15)):
+        ablocks, aheights = blocks, None
+        if spec_id == "OC" and spec.get("oc_extra_fuel"):
+            # the outer assemblies have one fuel block more: everything above the fuel sits one index higher
+            k = (1 if plate else 0) + nfuel
+            ablocks = blocks[:k] + [fuel_anchor] + blocks[k:]
+            aheights = heights[:k] + [heights[k - 1]] + heights[k:]
         lines.append(f"    {name}:")
         lines.append(f"        specifier: {spec_id}")
-        lines.append(f"        blocks: [{', '.join(blocks)}]")
-        lines.append("        height: *hts")
-        lines.append("        axial mesh points: *amp")
-        mods_u = ["''" if "fuel" not in b else str(enr) for b in blocks]
-        mods_z = ["''" if "fuel" not in b else "0.06" for b in blocks]
+        lines.append(f"        blocks: [{', '.join(ablocks)}]")
+        if aheights is None:
+            lines.append("        height: *hts")
+            lines.append("        axial mesh points: *amp")
+        else:
+            lines.append(f"        height: [{', '.join(str(float(h)) for h in aheights)}]")
+            lines.append(f"        axial mesh points: [{', '.join('1' for _ in ablocks)}]")
+        mods_u = ["''" if "fuel" not in b else str(enr) for b in ablocks]
+        mods_z = ["''" if "fuel" not in b else "0.06" for b in ablocks]
         lines.append("        material modifications:")
         lines.append(f"            U235_wt_frac: [{', '.join(mods_u)}]")
         lines.append(f"            ZR_wt_frac: [{', '.join(mods_z)}]")
-        lines.append(f"        xs types: [{', '.join(xs)}]")
+        lines.append(f"        xs types: [{', '.join('A' for _ in ablocks)}]")
     co = spec.get("core_origin") or [0.0, 0.0, 0.0]
     so = spec.get("sfp_origin") or [5000.0, 5000.0, 6000.0]
     lines.append("systems:")
